@@ -54,6 +54,18 @@ class {P}Fb({P}N0):
     def __bool__(self):
         return False
 
+@dataclass(frozen=True)
+class {P}It(ASTNode):
+    # a node that can be iterated / measured / asked for membership like a collection of its kids
+    v: int = 0
+    kids: tuple[{P}N0, ...] = ()
+    def __iter__(self):
+        return iter(self.kids)
+    def __len__(self):
+        return len(self.kids)
+    def __contains__(self, x):
+        return any(x is k for k in self.kids)
+
 {P}Ref = NewType("{P}Ref", {P}N0)
 {P}RefSeq = NewType("{P}RefSeq", tuple[{P}Ref, ...])
 {P}RefOpt = NewType("{P}RefOpt", Optional[{P}Ref])
@@ -71,6 +83,9 @@ def child_pool(P):
         ("tuple", f"tuple[{N0}, ...]", (N0,)),
         ("tuple", f"Tuple[{N0} | {Fz}, ...]", (N0, Fz)),
         ("fixed2", f"tuple[{N0}, {N1}]", (N0, N1)),
+        ("one", f"{P}It", (f"{P}It",)),
+        ("opt", f"{P}It | None", (f"{P}It",)),
+        ("tuple", f"tuple[{P}It | {N0}, ...]", (f"{P}It", N0)),
         # NewType aliases: of a node class, and of a generic over such an alias
         ("one", f"{P}Ref", (N0,)),
         ("tuple", f"{P}RefSeq", (N0,)),
@@ -179,6 +194,8 @@ def make_instance(rng, U, cname):
                 t = rng.choice(types)
                 if t.endswith("N0") and rng.random() < 0.3:
                     t = t[:-2] + "Fb"
+                if t.endswith("It"):
+                    return U.module.__dict__[t](v=rng.randrange(5), kids=tuple(U.module.__dict__[t[:-2] + "N0"](v=10 + i) for i in range(rng.choice([0, 1, 2]))))
                 return U.module.__dict__[t](v=rng.randrange(5))
 
             if f.shape == "one":
